@@ -2,6 +2,7 @@ package rules
 
 import (
 	"fmt"
+	"os"
 	"sort"
 	"strings"
 
@@ -81,6 +82,18 @@ func doneOnAllPaths(fn *ssa.Function, key string) bool {
 func callRunsDone(p *an.Prog, ci ssa.CallInstruction, key string) bool {
 	if cc, ok := an.IsCallTo(ci, fnWgDone); ok && groupKey(cc.Args[0]) == key {
 		return true
+	}
+	if os.Getenv("TV_DEBUG") != "" {
+		if cc, ok := an.IsCallTo(ci, fnWgDone); ok {
+			fmt.Fprintf(os.Stderr, "callRunsDone: Done on %s (want %s) resolved=%T\n", groupKey(cc.Args[0]), key, an.Resolve(cc.Args[0]))
+		}
+		for _, callee := range p.Callees(ci.Common()) {
+			an.EachInstr(callee, func(in ssa.Instruction) {
+				if cc, ok := an.IsCallTo(in, fnWgDone); ok {
+					fmt.Fprintf(os.Stderr, "callRunsDone: in %s Done on %s (want %s) resolved=%T %v\n", an.Short(callee), groupKey(cc.Args[0]), key, an.Resolve(cc.Args[0]), an.ResolveAll(cc.Args[0]))
+				}
+			})
+		}
 	}
 	for _, callee := range p.Callees(ci.Common()) {
 		if callee.Blocks != nil && doneOnAllPaths(callee, key) {
